@@ -81,6 +81,11 @@ def _all_faults(steps):
         for s in ([-1, 0, 1] if solver == "Riks" else steps(nst)):  # Riks: -1 = the solve in __init__; it takes 2 steps here
             for flag in (False, True):
                 out.append({"solver": solver, "system": system, "site": site, "step": s, "flag": flag})
+                if site in ("fixed_point_midpoint", "fixed_point_main"):
+                    out.append({"solver": solver, "system": system, "site": site, "step": s, "flag": flag, "nan": True})
+                if site == "fixed_point_midpoint":
+                    out.append({"solver": solver, "system": system, "site": site, "step": s, "flag": flag, "nan": True, "dsv_accelerated": False})
+                    out.append({"solver": solver, "system": system, "site": site, "step": s, "flag": flag, "dsv_accelerated": False})
     return out
 
 
@@ -97,7 +102,12 @@ def _case(draw):
     return {"solver": solver, "system": system, "site": site, "step": draw(st.integers(-1 if solver == "Riks" else 0, nst - 1)),
             "flag": draw(st.booleans()),
             # Jacobian of the nonlinear solves: analytic (default) or numerical (SolverOptions.numerical_jacobian_method)
-            "num_jac": draw(st.sampled_from([False, False, "2-point", "3-point"])) if "newton" in site else False}
+            "num_jac": draw(st.sampled_from([False, False, "2-point", "3-point"])) if "newton" in site else False,
+            # the sabotaged map of the DualStormerVerlet helpers returns finite alternating values (never converges) or NaN
+            # (an iteration that overflowed)
+            "nan": draw(st.booleans()) if site in ("fixed_point_midpoint", "fixed_point_main") else False,
+            # DualStormerVerlet with the accelerated (default) or the plain main iteration
+            "dsv_accelerated": draw(st.booleans()) if site == "fixed_point_midpoint" else True}
 
 
 def strategy(tier):
@@ -271,6 +281,8 @@ def _check_once(spec):
                 def bad(x):
                     c[0] += 1
                     y = fun(x)
+                    if spec.get("nan") and c[0] > 1:
+                        return y + np.nan
                     return y + (1.0 if c[0] % 2 else -1.0) * 1e-2 * (1 + np.abs(y))
 
                 k["max_iter"] = 20
@@ -307,7 +319,8 @@ def _check_once(spec):
                         # the main loop uses the momentum variant when accelerated (default)
                         patch(m_dsv, "fixed_point_iteration_with_momentum",
                               helper_wrapper(m_dsv.fixed_point_iteration_with_momentum, "fixed_point_main"))
-                    s = dynbuild.make_solver(solver, system, NSTEPS * DT, DT, opts)
+                    kw_ = {"accelerated": bool(spec.get("dsv_accelerated", True))} if solver == "DualStormerVerlet" else {}
+                    s = dynbuild.make_solver(solver, system, NSTEPS * DT, DT, opts, **kw_)
                     state["solver"] = s
                     if site == "fixed_point" and solver in ("Moreau", "BackwardEuler"):
                         s.prox = sabotage_prox(s.prox, None)
@@ -330,7 +343,9 @@ def _check_once(spec):
 
     if raised:
         res.ok()
-        if isinstance(exc, (RuntimeError, AssertionError, ValueError)):
+        # the error must be the announcement of the failed iteration, not a crash further down the road (a NaN iterate
+        # that was accepted makes a later factorisation fail with an unrelated message)
+        if isinstance(exc, (RuntimeError, AssertionError, ValueError)) and "converge" in str(exc).lower():
             res.label("raised" if not flag else "flag_on_but_raised")
         else:
             res.fail("failure_is_announced", name, None, feats, f"unexpected exception {type(exc).__name__}: {exc}")
